@@ -182,7 +182,31 @@ def r3(rr, repo):
     for c in calls:
         g = q.guards_of(c, stop=init)
         rr.ob('the START emission is guarded only by the presence of the emitter', all('emitter' in U(t) for t, pol in g) and len(g) <= 1, mod, c, witness=' && '.join(U(t) for t, _ in g), key=f'init-guard|{U(c.func).split(".")[-1]}')
-    # first statement that can raise before emit_start? START should precede setup of communication
+    # nothing init itself makes fail precedes START: a run that dies in init() before emit_start still goes through the handlers of
+    # run(), which emit terminal events - a history without START
+    starts = [c for c in calls if U(c.func).endswith('.emit_start')]
+    if starts:
+        top = [i for i, st in enumerate(init.body) if any(x is starts[0] for x in ast.walk(st))]
+        idx = top[0] if top else -1
+        early = [n for i, st in enumerate(init.body[:idx]) for n in walk_scope(st) if isinstance(n, (ast.Raise, ast.Assert)) or
+                 (isinstance(n, ast.Call) and U(n.func) in ('self.exit', 'self.stop'))]
+        if isinstance(init.body[idx], ast.If):   # inside the statement that holds emit_start: anything before the call
+            early += [n for n in walk_scope(init.body[idx]) if (isinstance(n, (ast.Raise, ast.Assert)) or (isinstance(n, ast.Call) and U(n.func) in ('self.exit', 'self.stop'))) and n.lineno < starts[0].lineno]
+        rr.ob('no raise / assert / exit() of Filter.init itself can run before START is emitted (a run that fails in init still gets its terminal events from run())',
+              not early, mod, early[0] if early else starts[0], witness=U(early[0])[:120] if early else '', key='nothing-fails-before-start')
+        ev = Evaluator(repo, mod)
+        ev.scope_node = init
+        ps = ev.run(init.body[:idx + 1])
+        rr.paths += len(ps)
+        k = 0
+        for p in ps:
+            absent = any(v is False for kk, v in p.pc if 'emitter' in kk and kk.startswith(('truthy(hasattr', 'hasattr'))) or p.facts.get('isnone(self.emitter)') is True
+            if absent:
+                continue
+            k += 1
+            st = [e for e in p.events if e.kind == 'call' and e.term.endswith('.emitter.emit_start')]
+            rr.ob('with an emitter present every path through the head of Filter.init reaches emit_start', bool(st) and p.outcome is None, mod, starts[0], witness=p.pc_text()[-200:], key='start-on-every-path')
+        rr.floor('paths through the head of Filter.init with an emitter', k, 1, mod, init)
     lm = repo.module(LIN)
     stores = []
     for n in ast.walk(lm.tree):
